@@ -234,8 +234,9 @@ const (
 // c17RefMain is the reference state of one main upstream.
 type c17RefMain struct {
 	st int
-	// lo and hi bound the instant of the failed probe(s) that started the
-	// running exclusion (start of the first, end of the last).
+	// lo and hi bound the instant of the MOST RECENT failed probe (its start
+	// and its end): the backoff period of the statement counts from the
+	// failed probe, so every further failed probe starts it anew.
 	lo, hi time.Time
 	// okEarly is set when a probe succeeded while the backoff was certainly
 	// still running.
@@ -292,10 +293,10 @@ func (x *c17Ref) round(t0 time.Time, calls []c17Call, mains []*c17Ups) (fs []vrt
 					m.st, m.okEarly = c17Any, false
 				}
 			} else {
-				if m.st == c17In {
-					m.lo = c.start
-				}
-				m.hi = c.end
+				// "A main upstream whose health probe failed is not used again
+				// until the backoff period has elapsed and a probe succeeds"
+				// holds for this failed probe, whatever the state before it.
+				m.lo, m.hi = c.start, c.end
 				m.st, m.okEarly = c17Out, false
 			}
 		}
@@ -485,7 +486,8 @@ func (w *c17World) queryNow(a, b int) (hit int, fs []vrt.Finding) {
 	if len(mainCalls) == 1 {
 		hit = mainCalls[0].ups.idx
 		if w.ref.status(hit, now) == c17Out {
-			bad("query/excluded-main-used", "main upstream m%d is excluded (failed probe, backoff %s not elapsed or no successful probe since)", hit, w.ref.backoff)
+			bad("query/excluded-main-used", "main upstream m%d is excluded: its most recent failed probe was at %s, backoff %s, and no probe has succeeded after the backoff elapsed",
+				hit, c17T(w.ref.m[hit].lo), w.ref.backoff)
 
 			return hit, fs
 		}
